@@ -88,6 +88,8 @@ def run(ctx: Ctx):
         rules.rule_callers(ctx, "D3", name, ok, f"{name} may only be called by Station.{'/'.join(wrappers)}")
     # D4 enter call sites, D5 transition data flow and adoption
     rules.rule_enter_sites(ctx, KINDS, "D4")
+    ctx.attempt(rules.rule_enter_installs, ctx, "D4")
+    ctx.attempt(rules.rule_state_lineage, ctx, "D2", rules.step_path_funcs(repo))
     rules.rule_transition(ctx, "D5")
     du = repo.func(VS, "VehicleStateABC.default_update")
     ai = repo.func(SSO, "apply_instructions")
